@@ -231,7 +231,7 @@ def check_eval(ctx, spec):
     try:
         got = run_eval(spec)
     except Exception as exc:
-        ctx.fail_exc(spec, 'eval-raises', exc, [spec['method']])
+        ctx.fail_exc(spec, 'eval-raises', exc, [spec['method']] + opgen.copy_scope_tags(spec['pipeline'], whole=True))
         return
     finally:
         hygiene.release_graph()
@@ -296,7 +296,7 @@ def check_stack(ctx, spec):
     try:
         train_tail, apply_tail, _, _ = c03.run_expr(full)
     except Exception as exc:
-        ctx.fail_exc(spec, 'stack-raises', exc)
+        ctx.fail_exc(spec, 'stack-raises', exc, opgen.copy_scope_tags(full))
         return
     finally:
         hygiene.release_graph()
